@@ -93,6 +93,18 @@ func checkID(id, kind string, sigil byte) (err error) {
 	return
 }
 
+// checkRoomIDField checks the room_id of an event being parsed: the generic ID checks
+// plus the room ID grammar, so that PDU.RoomID() cannot fail on an accepted event.
+func checkRoomIDField(id string) error {
+	if err := checkID(id, "room", '!'); err != nil {
+		return err
+	}
+	if _, err := spec.NewRoomID(id); err != nil {
+		return fmt.Errorf("gomatrixserverlib: invalid room ID %q: %w", id, err)
+	}
+	return nil
+}
+
 // SplitID splits a matrix ID into a local part and a server name.
 func SplitID(sigil byte, id string) (local string, domain spec.ServerName, err error) {
 	// IDs have the format: SIGIL LOCALPART ":" DOMAIN
